@@ -169,9 +169,14 @@ _ADDR = T.fixed(T.str, T.range(0, 65535))
 _SAME_BIN = ("(pton_valid(af, from_address[0]) and pton_valid(af, destination[0]) "
              "and pton(af, from_address[0]) == pton(af, destination[0]))")
 _MATCH = f"(from_address[1] == destination[1] and ({_SAME_BIN} or is_mcast(destination[0])))"
+import socket as _socket  # noqa: E402
+
 REG.contract(
     "dns.query._matches_destination",
-    params={"af": T.int, "from_address": _ADDR, "destination": T.opt(_ADDR), "ignore_unexpected": T.bool},
+    # the clauses speak through uninterpreted functions of the address text (no executable definition): no native evaluation
+    no_native=True,
+    params={"af": T.oneof(int(_socket.AF_INET), int(_socket.AF_INET6)), "from_address": _ADDR, "destination": T.opt(_ADDR),
+            "ignore_unexpected": T.bool},
     raises=[("dns.query.UnexpectedSource", f"(destination is not None) and (not {_MATCH}) and (not ignore_unexpected)"),
             ("builtins.ValueError", "True", "may")],
     returns=T.bool,
